@@ -72,18 +72,21 @@ type Outcome struct {
 }
 
 type Impl struct {
-	L           *lua.LState
-	Opts        lua.Options
-	baseline    map[string]lua.LValue
-	ids         map[lua.LValue]string
-	counts      map[byte]int
-	events      []Event
-	B           *Budget
-	Runs        int
-	Extra       func(m *Impl) // registers additional host functions on a fresh state
-	Userdata    []*lua.LUserData
-	Notes       []string // free-form per-run notes written by extra host functions
-	NoAutoFresh bool     // do not replace the LState after 2000 runs (callers that configure the state themselves)
+	L        *lua.LState
+	Opts     lua.Options
+	baseline map[string]lua.LValue
+	ids      map[lua.LValue]string
+	counts   map[byte]int
+	events   []Event
+	B        *Budget
+	Runs     int
+	Extra    func(m *Impl) // registers additional host functions on a fresh state
+	Userdata []*lua.LUserData
+	Notes    []string // free-form per-run notes written by extra host functions
+	residue0 string
+	// NoResidueCheck: the caller changes the state's configuration between runs itself (context, options)
+	NoResidueCheck bool
+	NoAutoFresh    bool // do not replace the LState after 2000 runs (callers that configure the state themselves)
 	// ShrinkRegistry: before every run a growable registry is cut back to its initial capacity, so
 	// that every run meets the growth steps (a reused state would otherwise grow once and for all)
 	ShrinkRegistry bool
@@ -277,6 +280,21 @@ func (m *Impl) registerHost() {
 }
 
 // Run loads and runs src on the (reused) state. budget <= 0 means 5 million instructions.
+// residueDiff lists the fields of two VerifResidue renderings that differ.
+func residueDiff(a, b string) string {
+	fa, fb := strings.Fields(a), strings.Fields(b)
+	var d []string
+	for i := 0; i < len(fa) && i < len(fb); i++ {
+		if fa[i] != fb[i] {
+			d = append(d, fa[i]+" -> "+fb[i])
+		}
+	}
+	if len(fa) != len(fb) {
+		d = append(d, "field lists differ")
+	}
+	return strings.Join(d, ", ")
+}
+
 func (m *Impl) Run(src string, budget int64) (out Outcome) {
 	return m.runWith(func(L *lua.LState) (*lua.LFunction, error) { return L.Load(strings.NewReader(src), ChunkName) }, budget)
 }
@@ -318,6 +336,8 @@ func (m *Impl) runWith(load func(L *lua.LState) (*lua.LFunction, error), budget 
 		L.SetTop(0)
 		m.resetGlobals()
 	}()
+	// (taken before every run, not once per state: callers attach contexts between runs)
+	m.residue0 = lua.VerifResidue(L)
 	fn, err := load(L)
 	if err != nil {
 		out.Failed = true
@@ -333,6 +353,12 @@ func (m *Impl) runWith(load func(L *lua.LState) (*lua.LFunction, error), budget 
 	if q := lua.VerifQuiescent(L); q != "" && L == m.L {
 		// white-box: after the outermost protected call nothing of the run may be left behind
 		m.events = append(m.events, Event{"STATE-NOT-QUIESCENT", []string{q}, atomic.LoadInt64(&m.B.Count)})
+	}
+	if L == m.L && !m.NoResidueCheck {
+		// white-box: flags and counters of the state's bookkeeping are as they were on the new state
+		if res := lua.VerifResidue(L); res != m.residue0 {
+			m.events = append(m.events, Event{"STATE-RESIDUE", []string{residueDiff(m.residue0, res)}, atomic.LoadInt64(&m.B.Count)})
+		}
 	}
 	out.Events = m.events
 	if err != nil {
